@@ -728,6 +728,52 @@ func (c *Ctx) checkMinMaxLess(r *Report, cmpFn *types.Func) {
 		if n == 0 {
 			r.Fail("C12.R1", ssaFuncName(fn), "extension "+name+" uses Cmp", c.Pos(fn.Pos()), name+"() does not delegate to object.Cmp")
 		}
+		// ... and orders values through nothing else: no library ordering (slices.Min/Max, sort, math.Min/Max,
+		// cmp.Compare, builtin min/max) and no </> on floats or strings in the callback or the helpers of its package
+		other := ""
+		for _, h := range c.localHelpers(fn, 2) {
+			eachInstr(h, func(in ssa.Instruction) {
+				if other != "" {
+					return
+				}
+				switch x := in.(type) {
+				case *ssa.BinOp:
+					switch x.Op {
+					case token.LSS, token.GTR, token.LEQ, token.GEQ:
+						if b, ok := x.X.Type().Underlying().(*types.Basic); ok && b.Info()&(types.IsFloat|types.IsString) != 0 {
+							other = c.Pos(x.Pos()) + ": " + x.Op.String() + " on " + b.Name()
+						}
+					}
+				case *ssa.Call:
+					if bi, ok := x.Common().Value.(*ssa.Builtin); ok && (bi.Name() == "min" || bi.Name() == "max") {
+						if b, ok := x.Type().Underlying().(*types.Basic); ok && b.Info()&(types.IsFloat|types.IsString) != 0 {
+							other = c.Pos(x.Pos()) + ": builtin " + bi.Name() + " on " + b.Name()
+						}
+						return
+					}
+					obj := calleeObj(x)
+					if obj == nil || obj.Pkg() == nil {
+						return
+					}
+					switch obj.Pkg().Path() {
+					case "slices":
+						if strings.HasPrefix(obj.Name(), "Min") || strings.HasPrefix(obj.Name(), "Max") || strings.HasPrefix(obj.Name(), "Sort") || strings.HasPrefix(obj.Name(), "Compare") || strings.HasPrefix(obj.Name(), "BinarySearch") {
+							other = c.Pos(x.Pos()) + ": slices." + obj.Name()
+						}
+					case "sort":
+						other = c.Pos(x.Pos()) + ": sort." + obj.Name()
+					case "math":
+						if obj.Name() == "Max" || obj.Name() == "Min" {
+							other = c.Pos(x.Pos()) + ": math." + obj.Name()
+						}
+					case "cmp":
+						other = c.Pos(x.Pos()) + ": cmp." + obj.Name()
+					}
+				}
+			})
+		}
+		r.Check(other == "", "C12.R1", ssaFuncName(fn), "extension "+name+" orders values through object.Cmp only", c.Pos(fn.Pos()),
+			name+"() also orders values by another primitive ("+other+"): Go's own ordering differs from Cmp's (NaN is the smallest float for Cmp, slices.Max/math.Max propagate it; integers and floats are one order for Cmp), so "+name+"() disagrees with < and > on some operands")
 	}
 	less := c.SSAFn(c.Fn("object", "BigArray.Less"))
 	for _, ci := range callsIn(less, cmpFn) {
